@@ -95,6 +95,9 @@ def gen(tier, rnd):
     for t in ['a=b', 'a=b; c=d', 'a=b; a=c; a=b; d=e', 'a=b;c=d', 'a=b;;c=d', 'a', 'a=b; ', '', 'a=b; c', '=', 'a=1; a=2; a=3; b=1', 'a=b;  c=d', 'a=b;\tc=d', 'a=b; =', ';', 'a=b;']:
         L.append('jar ' + hx(t))
     L.append('jar %s %s' % (hx('a=1; b=2'), hx('a=1; a=3; c=4')))
+    # empty values at every position (a pair may have an empty value: the header is still a list of pairs)
+    for t in ['sid=', 'a=x; b=', 'a=; b=y', 'a=; b=', 'a=; b=; c=', 'a=x; b=y; c=']:
+        L.append('jar ' + hx(t))
     return L
 
 BAD = ('ASAN', 'UBSAN', 'HANG', 'CRASH', 'TERMINATE', 'MISSING')
@@ -109,6 +112,12 @@ def oracle(line, out):
             return ('roundtrip', 'written cookie does not parse back: ' + out[:300])
         if m.group(2) != m.group(3):
             return ('roundtrip', 'parsed-back cookie differs: wrote %r; built [%s]; parsed [%s]' % (unhx(m.group(1)), m.group(2), m.group(3)))
+    elif w[0] == 'jar' and out.startswith('err'):
+        # a Cookie header that plainly lists name=value pairs (token names, values of letters / digits / a few marks, possibly empty,
+        # separated by "; ") yields its pairs: it is not malformed
+        import re as _re
+        if all(_re.fullmatch(rb'[A-Za-z0-9_-]+=[A-Za-z0-9_.~-]*(; [A-Za-z0-9_-]+=[A-Za-z0-9_.~-]*)*', unhx(h)) for h in w[1:] if unhx(h)):
+            return ('jar-pairs', 'a Cookie header listing plain name=value pairs was rejected (%s): %r' % (out, [unhx(h) for h in w[1:]]))
     elif w[0] == 'jar' and out.startswith('ok'):
         m = re.fullmatch(r'ok n=(\d+) pre=(\S+) post=(\S+) lookup=(\S+)', out)
         if m.group(4) != 'ok': return ('jar-lookup', 'the look-up interface of the jar disagrees with its iteration: ' + m.group(4))
